@@ -310,6 +310,7 @@ def judgements(seed, n):
             out.append({"ev": "self", "ty": ty, "tok": codes, "cur": cur, "v": v, "expect": expect})
         if d == SAME:
             ev(cur, True)
+            ev([] if islist else val(0), True)
             ev([7] if islist else val(1), False)
         elif d == FREE:
             ev([] if islist else val(r.randrange(1000)), True)
